@@ -287,7 +287,14 @@ func (w *routeWorld) malform(rt *swaptypes.Route) string {
 			leaves = append(leaves, n)
 		}
 	}
-	switch r.N(12) {
+	switch r.N(14) {
+	case 12, 13: // the whole route is a series WITHOUT hops from a denom to itself (nothing to connect, so the denom chain "matches")
+		d := rt.DenomIn
+		if r.Bool() {
+			d = rt.DenomOut
+		}
+		*rt = swaptypes.Route{DenomIn: d, DenomOut: d, Strategy: &swaptypes.Route_Series{Series: &swaptypes.RouteSeries{Routes: nil}}}
+		return "emptysame"
 	case 10, 11: // a parallel branch that is a perfectly executable route of its own, but to (or from) ANOTHER denom than its parent
 		if len(pars) > 0 {
 			pn := pars[r.N(len(pars))]
